@@ -465,3 +465,43 @@ def _variant_of(cb, op, default):
     if d is not None and d[1] == "assign" and d[2]["rv"]["k"] == "aggregate" and d[2]["rv"].get("adt") == "core::option::Option":
         return d[2]["rv"]["variant"]
     return default
+
+
+def rule_l_iter(ctx):
+    R = RuleResult("L-iter", "a body that keeps polling a both-tables iterator while removing elements only ever invalidates the old table by removing a bucket "
+                   "that this very iterator has just yielded: when the old table is freed the iterator's old side has yielded all its elements, so (hashbrown: "
+                   "next() returns None at count 0 without touching memory) it never steps into freed memory")
+    inv = invalidation(ctx)
+    comp_iter = [a for a, v in ctx.roles.composites.items() if v["family"] == "iter"]
+    n = 0
+    for b in ctx.facts.bodies.values():
+        polls = [c for c in ctx.calls(b) if c.method == "next" and c.self_adt in comp_iter and not b.is_cleanup(c.loc.bb)]
+        if not polls:
+            continue
+        isites = []
+        for c in ctx.calls(b):
+            if b.is_cleanup(c.loc.bb):
+                continue
+            lc = c.local_callee()
+            if lc is not None and inv.get(lc.path):
+                isites.append(c)
+            elif c.tname and c.tname.startswith("hashbrown::raw::RawTable::") and c.tname in LINEAR and ctx.role(b, c.arg_path(0)) in (MAIN, OLD):
+                isites.append(c)
+        if not isites:
+            continue
+        n += 1
+        why = []
+        for c in isites:
+            lc = c.local_callee()
+            ok = False
+            if lc is not None and s_method(ctx, c) is not None and lc.name in ("remove", "erase") and len(c.args) >= 2:
+                s, _ = b.slice_back(c.loc, [c.args[1]])
+                if any(p.loc in s for p in polls):
+                    ok = True
+            if not ok:
+                why.append("%s @ %s may move, free or reallocate table storage while the iterator polled at %s is still in use" % (c.tname, c.where(), polls[0].where()))
+        R.inst(fn=b.path, polls=[p.where() for p in polls], invalidating=[c.tname for c in isites], verdict="ok" if not why else "VIOLATION")
+        if why:
+            R.viol(b.path, polls[0].where(), "; ".join(why))
+    R.floor(1, "iterate-and-remove bodies")
+    return R
